@@ -266,13 +266,16 @@ def pageXor (ls : Nat) (t : Tree (BitVec 256)) (p : Nat) : BitVec 256 :=
 def calcXor (ls : Nat) (txs : List Tx) : BitVec 256 :=
   (txs.foldl (fun t tx => t.insert xorOps tx.ref tx.clock) (Tree.new xorOps ls)).rootData xorOps
 
-/-- `xorTreeRepair.checkPage` (circuit red = two `IncorrectStateDetected` signals) -/
-def checkPage (cfg : Cfg) (s : State n) : State n :=
+/-- `xorTreeRepair.checkPage` (circuit red = two `IncorrectStateDetected` signals). `lcSeen` is the value of
+    `lamportClockHigh` the function read BEFORE it acquired the write lock (it only steers the page walk); everything
+    else — scan of the page (`findBetweenLC`), recomputation, comparison, `Replace`, persist — happens inside ONE write
+    transaction, i.e. atomically with respect to every `Add`. -/
+def checkPageWith (cfg : Cfg) (lcSeen : Nat) (s : State n) : State n :=
   if s.mem.circuit < 2 then s else
   let p := s.mem.repairPage
   let lcStart := p * cfg.pageSize
   let lcEnd := lcStart + cfg.pageSize
-  let next := if lcEnd > s.mem.lcHigh then 0 else p + 1
+  let next := if lcEnd > lcSeen then 0 else p + 1
   match s.disk.findBetweenLC lcStart lcEnd with
   | .ok txs =>
     let c := calcXor cfg.pageSize txs
@@ -282,6 +285,9 @@ def checkPage (cfg : Cfg) (s : State n) : State n :=
       let pr := persist (s.mem.xorTree.replace xorOps lcStart c) s.disk.xorLeaves
       { disk := { s.disk with xorLeaves := pr.2 }, mem := { s.mem with xorTree := pr.1, repairPage := next } }
   | _ => { s with mem := { s.mem with repairPage := next } }
+
+/-- `checkPage` with no `Add` between its read of the atomic clock and its write transaction -/
+def checkPage (cfg : Cfg) (s : State n) : State n := checkPageWith cfg s.mem.lcHigh s
 
 /-- a stored XOR leaf overwritten on disk (takes effect in memory at the next load) -/
 def corruptDisk (s : State n) (key : Nat) (v : BitVec 256) : State n :=
